@@ -27,6 +27,11 @@ CLAIMED = {
             "dense tensor is recomputed independently before and after and the advertised canonical form is checked entrywise. "
             "Sampled (orders 2-4, sizes 1-5, ranks 1-4).",
             "Trusted: numpy.einsum, numpy.linalg. cp_permute_factors alignment asserted only where the best matching is unique.", "DESIGN.md §2 C04"),
+    "C05": ("runtime postcondition monitor on (U,S,V) against float64 LAPACK reference",
+            "Seeded matrices in seven structural classes x five method routes x n_eigenvecs 1..max+2/None x flip side x NNDSVD options; "
+            "shapes, ordering, singular values, orthonormality, truncation error (on squares), sign rule and non-negativity are "
+            "checked on every return value. Sampled up to 12x12; symeig orthonormality beyond the numerical rank is a listed finding.",
+            "Trusted: numpy.linalg.svd in float64.", "DESIGN.md §2 C05"),
 }
 
 PENDING_REASON = "check not built yet in this session; see DESIGN.md §2 for the planned monitor"
